@@ -591,7 +591,7 @@ def r5(ctx):
     ctx.counters['abstract_cases'] += sub.counters['abstract_cases']
     # ... computed from the current fragments (C13-R6), from arbitrated fragment calls (C13-R7), with the safe-span request applied as given (C13-R8)
     from ..core import include
-    include(ctx, C13, [C13.r2, C13.r6, C13.r7, C13.r8], 'C14-R5')
+    include(ctx, C13, [C13.r2, C13.r6, C13.r7, C13.r8, C13.r9], 'C14-R5')
 
 
 @rule('C14', 'C14-R6', 'the reference the contexts are read from is the reference: a class of the TAPS module that stands in for the reference handle (it has a `fetch` method and is built '
